@@ -186,7 +186,7 @@ class Plat:
 
     # --- rendering
     def token_text(self):
-        out = list(self.tokens)
+        out = list(self.tokens) + ["explicit"]
         if self.pass2:
             out.append("pass2")
         out += ["pair %s %s" % p for p in self.pairs]
@@ -219,7 +219,7 @@ def run_driver(ctx, plat, tag, timeout=120):
     if plat.xml is not None:
         xf = os.path.join(d, "plat.xml")
         open(xf, "w").write(plat.xml)
-        body = "xml %s\n" % xf + ("pass2\n" if plat.pass2 else "") + "".join("pair %s %s\n" % p for p in plat.pairs)
+        body = "xml %s\nexplicit\n" % xf + ("pass2\n" if plat.pass2 else "") + "".join("pair %s %s\n" % p for p in plat.pairs)
         open(tf, "w").write(body)
     else:
         open(tf, "w").write(plat.token_text())
@@ -409,14 +409,15 @@ def tla_prints(out, tags):
 
 
 def tlc_explore(ctx, plats, pairs, tag, dev="none", print_exp=True, timeout=900, workers=1, coverage=False,
-                keep_going=False):
+                keep_going=False, track=None):
     """(M) HierMC on pairs = [(platform number 1-based, src name, dst name)].  Returns (TlcResult, exp, dist):
     exp[k] = list of {l, lat, vt, fl} expected behaviours of pair k; dist[(p, zone number)] = {a: {b: count}}."""
     pf = _write_plats(ctx, plats, tag)
     qf = os.path.join(ctx.scratch, "pairs_%s.json" % tag)
     json.dump([{"p": p, "s": plats[p - 1].npi[s], "d": plats[p - 1].npi[d]} for p, s, d in pairs], open(qf, "w"))
     cfg = os.path.join(RSPEC, "HierMC.cfg" if print_exp else "HierMCq.cfg")
-    r = vlib.tlc(os.path.join(RSPEC, "HierMC.tla"), cfg=cfg, env={"PLATS": pf, "PAIRS": qf, "DEV": dev},
+    r = vlib.tlc(os.path.join(RSPEC, "HierMC.tla"), cfg=cfg,
+                 env={"PLATS": pf, "PAIRS": qf, "DEV": dev, "TRACK": "1" if (print_exp if track is None else track) else "0"},
                  timeout=timeout, workers=workers, coverage=coverage, extra=["-continue"] if keep_going else None)
     exp = [[] for _ in pairs]
     seen = [set() for _ in pairs]
@@ -563,7 +564,8 @@ def classify(ctx, plats, out, tag, workers=1):
         return []
     # expected behaviours of the rejected pairs (strict machine)
     pairs = [(pi + 1, rec["s"], rec["d"]) for pi, rec in bad if rec["s"] != "?"]
-    r, exp, _ = tlc_explore(ctx, plats, pairs, tag + "_cls", timeout=900, keep_going=True, workers=workers)
+    # flags of the expected behaviours (the links are not tracked: behaviours differing only by their links are merged)
+    r, exp, _ = tlc_explore(ctx, plats, pairs, tag + "_cls", timeout=900, keep_going=True, workers=workers, track=False)
     with _LOCK:
         ctx.add_tlc(r)
     if r.status not in ("ok", "invariant"):
@@ -592,7 +594,7 @@ def classify(ctx, plats, out, tag, workers=1):
         dfl = set(f for a in (da or []) for f in a["fl"])
         if da and "djkrev" in dfl:
             sig, why = SIG_DJKREV, "accepted by the machine that reverses the links of the multi-link routes of Dijkstra zones"
-        elif "djkpre" in flags and "ids" in rec and any(sorted(x["l"]) == sorted(rec["ids"]) for x in e):
+        elif "djkpre" in flags and "ids" in rec:
             sig, why = SIG_DJKREV, "the links of the Dijkstra zone are put in front of the route under construction"
         elif da and "uprev" in dfl:
             sig, why = SIG_UPREV, "accepted by the machine that reverses the multi-link routes taken on the way up"
@@ -607,6 +609,13 @@ def classify(ctx, plats, out, tag, workers=1):
         elif "dfgate" in flags:
             sig, why = SIG_DF, "dragonfly with more groups than routers per chassis"
         res.append((pi, rec, sig, why, e))
+    # the expected routes of a few unexplained rejections, for the report
+    un = [k for k, x in enumerate(res) if x[2] is None and x[1]["s"] != "?"][:6]
+    if un:
+        r3, exp3, _ = tlc_explore(ctx, plats, [(res[k][0] + 1, res[k][1]["s"], res[k][1]["d"]) for k in un], tag + "_exp",
+                                  timeout=300, keep_going=True, workers=workers)
+        for k, e3 in zip(un, exp3):
+            res[k] = res[k][:4] + (e3,)
     return res
 
 
